@@ -95,6 +95,15 @@ class LoggedKV(KVStore):
         yield from super().put(key_, value)
         self.w.rec("pd", self.idx, ctx, k=key_, v=value, st=self.w.store_of(self.idx))
 
+    @property
+    def write_latency(self):
+        """A node that waits the store's write latency WITHOUT storing (a superseded replicated write) is
+        observed here; the wait takes the next slot of the put script like a real put would."""
+        n = self.nput
+        self.nput += 1
+        self.w.rec("vs", self.idx, self.w.ctx)
+        return float(self.put_script[n]) if n < len(self.put_script) else self.base_w
+
     def get(self, key_):
         ctx = self.w.ctx
         extra = self._extra(self.get_script, self.nget, self.base_r)
@@ -330,7 +339,11 @@ class World:
         """Drive the node's handler generator, exposing which invocation is executing."""
         val = None
         self.active += 1
+        first = True
         while True:
+            if not first and ctx["type"] in ("Replicate", "Propagate") and ctx["at"] in self.stores:
+                self.rec("res", ctx["at"], ctx, st=self.store_of(ctx["at"]))
+            first = False
             prev, self.ctx = self.ctx, ctx
             try:
                 y = gen.send(val)
@@ -470,6 +483,7 @@ def to_trace(world, tid, conf=True):
             if r["e"] == "arr" and r["ctx"]["type"] == "AntiEntropyRequest":
                 ae_seen.setdefault((world.names.get(r["ctx"].get("source"), 0), r["n"]), []).append(idx)
     pos_of = {id(r): i for i, r in enumerate(world.log)}
+    waiting = {}
     last_ae_snap = -1
     for r in world.log:
         e, n, ctx = r["e"], r["n"], r["ctx"] or {}
@@ -487,13 +501,20 @@ def to_trace(world, tid, conf=True):
                 ev.append(_ev("rv", n=n, m="wack", w=int(ctx.get("seq", 0))))
             elif typ == "CommitNotify":
                 ev.append(_ev("rv", n=n, m="commit", w=int(ctx.get("seq", 0))))
+            elif typ == "Replicate" and proto == "pb":
+                ev.append(_ev("rv", n=n, m="repl", w=enc(ctx.get("value"))))
+            elif typ == "Propagate":
+                ev.append(_ev("rv", n=n, m="prop", w=enc(ctx.get("value"))))
             elif typ == "Replicate" and proto == "ml":
                 ev.append(_ev("rv", n=n, m="repl", w=enc(ctx.get("value")), vc=ctx.get("vc", [])))
             elif typ == "ReplicationAck":
                 ev.append(_ev("rv", n=n, m="rack", w=int(ctx.get("seq", 0))))
-        elif e == "ps":
-            if typ in ("Replicate", "Propagate") and proto in ("pb", "chain"):
-                ev.append(_ev("ps", n=n, w=enc(r["v"])))
+        elif e == "vs":
+            waiting[id(ctx)] = True
+        elif e == "res":
+            # first resume of a Replicate/Propagate handler that waited the latency without storing
+            if waiting.pop(id(ctx), False):
+                ev.append(_ev("sd", n=n, w=enc(ctx.get("value")), st=r["st"]))
         elif e == "pd":
             if typ in ("Write", "Replicate", "Propagate"):
                 ev.append(_ev("pd", n=n, w=enc(r["v"]), st=r["st"]))
